@@ -188,6 +188,17 @@ func propC25(e *Env) {
 	// independent witnesses
 	appended := map[string]int64{}
 	totalAppended := int64(0)
+	// an unterminated fragment at the end of a log; when that file generation ends (rotated, truncated,
+	// deleted, shutdown) it is delivered — and must be counted — as a line of its own
+	fragment := map[string]bool{}
+	flush := func(p string) {
+		if fragment[p] {
+			fragment[p] = false
+			appended[p]++
+			totalAppended++
+			e.Probe("fragment_flushed_as_line")
+		}
+	}
 	rtErrs := map[string]int64{}
 	exists := map[string]bool{}
 	for _, p := range paths {
@@ -265,6 +276,14 @@ func propC25(e *Env) {
 			}
 			k := 1 + e.Choose("gen", 4)
 			var sb strings.Builder
+			if fragment[p] {
+				// the first new line completes the fragment "9 7" + "" -> keep it matching errp/divp predicates simple:
+				// the fragment text is "7 42" without newline, so finishing it with "\n" makes one more ordinary line
+				sb.WriteString("\n")
+				fragment[p] = false
+				appended[p]++
+				totalAppended++
+			}
 			for j := 0; j < k; j++ {
 				lineNo++
 				first := lineNo
@@ -284,14 +303,20 @@ func propC25(e *Env) {
 					e.Probe("runtime_error_div0")
 				}
 			}
+			if e.Choose("gen", 4) == 0 {
+				// leave an unterminated line at the end ("7 42": no runtime error for errp, none for divp)
+				sb.WriteString("7 42")
+				fragment[p] = true
+			}
 			mustWrite(p, sb.String(), os.O_APPEND|os.O_WRONLY)
-			desc = fmt.Sprintf("append %d lines to %s", k, filepath.Base(p))
+			desc = fmt.Sprintf("append %d lines to %s (fragment left: %v)", k, filepath.Base(p), fragment[p])
 		case a == 4: // rotate
 			p := paths[e.Choose("gen", len(paths))]
 			if !exists[p] {
 				desc = "nop"
 				break
 			}
+			flush(p)
 			os.Remove(p + ".1")
 			os.Rename(p, p+".1")
 			mustWrite(p, "", os.O_CREATE|os.O_WRONLY|os.O_EXCL)
@@ -300,6 +325,7 @@ func propC25(e *Env) {
 		case a == 5: // truncate
 			p := paths[e.Choose("gen", len(paths))]
 			if exists[p] {
+				flush(p)
 				os.Truncate(p, 0)
 				desc = "truncate " + filepath.Base(p)
 				e.Probe("truncate")
@@ -309,6 +335,7 @@ func propC25(e *Env) {
 		case a == 6: // delete / recreate
 			p := paths[e.Choose("gen", len(paths))]
 			if exists[p] {
+				flush(p)
 				os.Remove(p)
 				exists[p] = false
 				desc = "delete " + filepath.Base(p)
@@ -389,6 +416,18 @@ func propC25(e *Env) {
 	}
 	if got := logCountVar() - baseLogCount; got != 0 {
 		e.Fail("log_count", "history [%s]: log_count is %d after shutdown", hist(), got)
+		return
+	}
+	for _, p := range paths {
+		if exists[p] {
+			flush(p)
+		}
+	}
+	for _, p := range paths {
+		exists[p] = false // every stream has ended
+	}
+	did = append(did, "shutdown")
+	if !check("after shutdown") {
 		return
 	}
 	var kinds []string
